@@ -43,17 +43,30 @@ def check(pid: str, tier: str, seed: int):
             for s in [st for a in L['assets'] for st in a['attackSteps']]:
                 if rng.random() < 0.4:
                     s['tags'] = rng.sample(['alpha', 'beta', 'gamma', 'delta', 'hidden'], rng.randint(2, 4))
+            L_given = copy.deepcopy(L)
             try:
                 lg, lcf = MG.make_lang(impl, L)
             except Exception:
                 continue
+            if L != L_given:
+                metas.append({'label': f'gen{i}', 'nodes': 0, 'serialized': None,
+                              'prop_viol': ['building the language graph changed the language specification it was given'],
+                              'lang': [(a['name'], a['superAsset'], [v['name'] for v in a['variables']]) for a in L_given['assets']]})
+                L = copy.deepcopy(L_given)
             m = MG.gen_model(impl, rng, L, lg, lcf, n_assets=(2, 6))
             PIO.add_model_attackers(impl, rng, m, lg)
             pairs.append((f'gen{i}', L, lg, lcf, m))
         # every operator over a model in which assets reach one field through several association objects
         Lo = PG.ops_language()
         try:
+            Lo_given = copy.deepcopy(Lo)
             lgo, lcfo = MG.make_lang(impl, Lo)
+            if Lo != Lo_given:
+                # (the operator language declares a variable on the root type that its sub-types use through inherited steps)
+                metas.append({'label': 'ops', 'nodes': 0, 'serialized': None,
+                              'prop_viol': ['building the language graph changed the language specification it was given'],
+                              'lang': [(a['name'], a['superAsset'], [v['name'] for v in a['variables']]) for a in Lo_given['assets']]})
+                Lo = copy.deepcopy(Lo_given)
             for oi, links in enumerate([[('Pp', 0, 1), ('Pp', 0, 2), ('Qq', 0, 1), ('Qq', 1, 2), ('Pp', 1, 0)],
                                         [('Pp', 0, 1), ('Pp', 0, 2), ('Pp', 0, 0), ('Qq', 2, 0), ('Qq', 2, 1), ('Qq', 1, 1)]]):
                 mo = Model(f'ops{oi}', lcfo)
@@ -251,6 +264,23 @@ def check(pid: str, tier: str, seed: int):
                     mal = os.path.join(scratch, f'{label}.mal')
                     open(mal, 'w', encoding='utf-8').write(text)
                     batch_mal.append((label, mal, mfile))
+                    # the same language split over a root file and an included file, compiled twice in this process: both
+                    # compilations give the specification of the single file
+                    dts = MS.decl_tokens(L)
+                    if len(dts) >= 2:
+                        cut = rng.randrange(1, len(dts))
+                        open(os.path.join(scratch, f'{label}_part.mal'), 'w', encoding='utf-8').write(MS.render([t for d in dts[cut:] for t in d]))
+                        split = os.path.join(scratch, f'{label}_split.mal')
+                        open(split, 'w', encoding='utf-8').write(MS.render([t for d in dts[:cut] for t in d] + [('kw', 'include'), ('str', f'{label}_part.mal')]))
+                        try:
+                            with C.time_limit(40):
+                                single = LanguageGraph.from_mal_spec(mal)._lang_spec
+                                for attempt in (1, 2):
+                                    if LanguageGraph.from_mal_spec(split)._lang_spec != single:
+                                        pv.append(f'compilation number {attempt} in this process of a source with an include differs from the compilation of the same declarations in one file')
+                                        break
+                        except Exception as e:
+                            pv.append(f'compiling a source with an include (twice in one process) raised {type(e).__name__}')
                 except (MS.Unprintable, ValueError):
                     pass
             else:
